@@ -91,13 +91,19 @@ Fixpoint seq_concat {A} (l : list (res (list A))) : res (list A) :=
   | r :: l' => bind r (fun a => bind (seq_concat l') (fun b => Ok (a ++ b)))
   end.
 
-Fixpoint get_nodes (t : tree) (v : varid) (pat : list string) {struct t} : res (list path) :=
+(* Model switches for the two proposed repairs (/verif/fixes/proposed_fix_C06_*.diff).  The code as it is = nofix.
+     fix_D31     : a named level that the circuit lacks yields no node instead of KeyError
+     fix_overlap : run() reads the backend columns of a wildcard key without popping them *)
+Record fixes := { fix_D31 : bool; fix_overlap : bool }.
+Definition nofix : fixes := {| fix_D31 := false; fix_overlap := false |}.
+
+Fixpoint get_nodes_gen (F : fixes) (t : tree) (v : varid) (pat : list string) {struct t} : res (list path) :=
   match t with
   | Leaf _ => Ok []
   | Circ ch =>
       (* the recursive calls on the children, for the remaining pattern pat' *)
       let sub_res (pat' : list string) : list (string * (bool * res (list path))) :=
-          map (fun c => let '(n, s) := c in (n, (is_circ s, get_nodes s v pat'))) ch in
+          map (fun c => let '(n, s) := c in (n, (is_circ s, get_nodes_gen F s v pat'))) ch in
       (* the branch `node_lvl != 'all'` of a pattern [n] ++ pat', given the child's answer *)
       let named (n : string) (isc : bool) (r : res (list path)) : res (list path) :=
           if isc then bind r (fun l => gnwv (Circ ch) v (add_new [] (map (cons n) l)))
@@ -121,11 +127,12 @@ Fixpoint get_nodes (t : tree) (v : varid) (pat : list string) {struct t} : res (
                             (sub_res rest) (Ok []))
                  (gnwv (Circ ch) v)
           else match assoc p (sub_res rest) with
-               | None => Err KeyError
+               | None => if fix_D31 F then Ok [] else Err KeyError
                | Some (isc, r) => named p isc r
                end
       end
   end.
+Definition get_nodes := get_nodes_gen nofix.
 
 (* ------------------------------------------------------------------------------------------ Spec *)
 Fixpoint leaves (t : tree) : list (path * node) :=
@@ -176,6 +183,7 @@ Fixpoint chk (km kl ks : bool) (t : tree) (pat : list string) : bool :=
                end
       end
   end.
+Definition resolvable_gen (F : fixes) := chk (fix_D31 F) false false.
 Definition resolvable := chk false false false.
 Definition names_resolve := chk false true true.
 Definition not_too_long := chk true false true.
@@ -184,12 +192,13 @@ Definition not_too_short := chk true true false.
 (* ------------------------------------------------------------------------------------------ output stage *)
 (* What apply() leaves behind (taken as given here; how it is computed is C04):
      labels : _vectorization_labels   node/op ↦ representative node/op, node ↦ representative node
-     vidx   : _vectorization_indices  frontend variable ↦ index inside its backend vector
+     vidx   : _vectorization_indices  frontend variable ↦ indices inside its backend vector (one per unit: a scalar node
+              has one, a PopulationTemplate of n units has n)
      f2b    : CircuitIR._front_to_back frontend variable (of the representative) ↦ backend vector name
      svi    : ComputeGraph._state_var_indices  backend vector ↦ (start, length) in the state vector *)
 (*   tsvi   : CircuitTemplate._state_var_indices — empty on a fresh template; get_run_func stores the graph's map
               (backend name ↦ (start, stop) | int) there and _get_var_idx looks it up by the BARE variable name *)
-Record layout := { labels : list (path * path); vidx : list (path * nat); f2b : list (path * string);
+Record layout := { labels : list (path * path); vidx : list (path * list nat); f2b : list (path * string);
                    svi : list (string * (nat * nat)); tsvi : list (string * option (nat * nat)) }.
 
 Fixpoint passoc {B} (p : path) (l : list (path * B)) : option B :=
@@ -211,21 +220,22 @@ Definition relabel (L : layout) (var : path) : path :=
             end
   end.
 
-(* where a frontend variable is read from: (backend vector, index in it);  KeyError when a map lacks the key *)
+(* where a frontend variable is read from: (backend vector, unit indices in it);  KeyError when a map lacks the key *)
 (* _get_var_idx: idx = _vectorization_indices[var]; try: arange of the range stored under the bare name, indexed by idx; except KeyError: idx *)
-Definition get_var_idx (L : layout) (var : path) : res nat :=
+Definition get_var_idx (L : layout) (var : path) : res (list nat) :=
   match passoc var (vidx L) with
   | None => Err KeyError
-  | Some i => match assoc (last var "") (tsvi L) with
-              | None => Ok i
-              | Some None => Err TypeError
-              | Some (Some (start, len)) => if Nat.ltb i len then Ok (start + i) else Err IndexError
-              end
+  | Some idxs => match assoc (last var "") (tsvi L) with
+                 | None => Ok idxs
+                 | Some None => Err TypeError
+                 | Some (Some (start, len)) =>
+                     if forallb (fun i => Nat.ltb i len) idxs then Ok (map (Nat.add start) idxs) else Err IndexError
+                 end
   end.
-Definition source_of (L : layout) (var : path) : res (string * nat) :=
-  bind (get_var_idx L var) (fun i =>
+Definition source_of (L : layout) (var : path) : res (string * list nat) :=
+  bind (get_var_idx L var) (fun idxs =>
   match passoc (relabel L var) (f2b L) with
-  | Some vec => match assoc vec (svi L) with Some _ => Ok (vec, i) | None => Err KeyError end
+  | Some vec => match assoc vec (svi L) with Some _ => Ok (vec, idxs) | None => Err KeyError end
   | None => Err KeyError
   end).
 
@@ -235,10 +245,14 @@ Definition column_value {V} (d : V) (L : layout) (row : list V) (src : string * 
   | Some (start, len) => nth_error (firstn len (skipn start row)) (snd src)
   | None => None
   end.
-(* the state slot of a frontend variable *)
-Definition pos (L : layout) (var : path) : option nat :=
+(* the state slot of unit j of a frontend variable (j = 0 for a scalar node) *)
+Definition pos (L : layout) (var : path) (j : nat) : option nat :=
   match source_of L var with
-  | Ok (vec, i) => match assoc vec (svi L) with Some (start, len) => if Nat.ltb i len then Some (start + i) else None | None => None end
+  | Ok (vec, idxs) =>
+      match nth_error idxs j, assoc vec (svi L) with
+      | Some i, Some (start, len) => if Nat.ltb i len then Some (start + i) else None
+      | _, _ => None
+      end
   | Err _ => None
   end.
 
@@ -255,28 +269,38 @@ Inductive entry := Single (v : path) | Multi (vs : list path).
 Fixpoint join (sep : string) (l : list string) : string :=
   match l with [] => "" | [x] => x | x :: l' => (x ++ sep ++ join sep l')%string end.
 
+(* decimal text of a unit number (the second level of a population's column label) *)
+Definition digit (n : nat) : string := String (ascii_of_nat (48 + n)) EmptyString.
+Fixpoint nat_str_fuel (fuel n : nat) : string :=
+  match fuel with
+  | O => ""
+  | S f => if Nat.ltb n 10 then digit n else (nat_str_fuel f (n / 10) ++ digit (n mod 10))%string
+  end.
+Definition nat_str (n : nat) : string := nat_str_fuel (S n) n.
+
 (* dict form *)
-Fixpoint positions_dict (t : tree) (reqs : list request) : res (list (string * entry)) :=
+Fixpoint positions_dict_gen (F : fixes) (t : tree) (reqs : list request) : res (list (string * entry)) :=
   match reqs with
   | [] => Ok []
   | (key, (pat, (o, x))) :: rest =>
-      bind (get_nodes t (Some (o, x)) pat) (fun nodes =>
+      bind (get_nodes_gen F t (Some (o, x)) pat) (fun nodes =>
       (* fix D48: `if not target_nodes: raise PyRatesException` *)
       match nodes with [] => Err PyRatesException | _ =>
-      bind (positions_dict t rest) (fun l =>
+      bind (positions_dict_gen F t rest) (fun l =>
         Ok (match nodes with
             | [] => l
             | [n] => (key, Single (var_key n o x)) :: l
             | _ => (key, Multi (map (fun n => var_key n o x) nodes)) :: l
             end)) end)
   end.
+Definition positions_dict := positions_dict_gen nofix.
 
 (* dict.update: a key that is already present keeps its place *)
 Definition upd_keys (acc new : list path) : list path := add_new acc new.
 
 (* list form: get_variable_positions(str) per entry, the results merged with dict.update.
    old = true: `outputs = self._relabel_var(outputs, labels)` before the path is split (reverted fix D06) *)
-Fixpoint positions_list (t : tree) (L : layout) (old : bool) (reqs : list request) (acc : list path) : res (list path) :=
+Fixpoint positions_list_gen (F : fixes) (t : tree) (L : layout) (old : bool) (reqs : list request) (acc : list path) : res (list path) :=
   match reqs with
   | [] => Ok acc
   | (_, (pat, (o, x))) :: rest =>
@@ -285,55 +309,93 @@ Fixpoint positions_list (t : tree) (L : layout) (old : bool) (reqs : list reques
       let pat' := firstn (n - 2) full in
       let o' := nth (n - 2) full "" in
       let x' := nth (n - 1) full "" in
-      bind (get_nodes t (Some (o', x')) pat') (fun nodes =>
+      bind (get_nodes_gen F t (Some (o', x')) pat') (fun nodes =>
         match nodes with [] => Err PyRatesException | _ =>
-        positions_list t L old rest (upd_keys acc (map (fun nd => var_key nd o' x') nodes)) end)
+        positions_list_gen F t L old rest (upd_keys acc (map (fun nd => var_key nd o' x') nodes)) end)
   end.
+Definition positions_list := positions_list_gen nofix.
 
-(* the DataFrame columns: (label, source in the backend state) in column order.
-   Several wildcard keys that expand to a common variable: the second outputs.pop raises KeyError.
-   No column at all (empty request): pandas raises ValueError.  (Since fix D43 a plain key inside a MultiIndex
-   frame is wrapped as a 1-tuple; before, the str was split into characters.) *)
 Definition multi_vars (es : list (string * entry)) : list path :=
   flat_map (fun e => match snd e with Multi vs => vs | Single _ => [] end) es.
 Fixpoint dupfree (l : list path) : bool :=
   match l with [] => true | p :: l' => negb (pmem p l') && dupfree l' end.
-Definition is_multi (e : string * entry) : bool := match snd e with Multi _ => true | Single _ => false end.
 
 Definition last2 (v : path) : string :=
   let n := List.length v in opvar (nth (n - 2) v "") (nth (n - 1) v "").
 
-Definition run_columns (t : tree) (L : layout) (f : form) (reqs : list request) : res (list (label * (string * nat))) :=
-  let with_src (lv : list (label * path)) : res (list (label * (string * nat))) :=
-      fold_right (fun x acc => bind (source_of L (snd x)) (fun s => bind acc (fun l => Ok ((fst x, s) :: l)))) (Ok []) lv in
-  match f with
-  | DictForm =>
-      bind (positions_dict t reqs) (fun es =>
-        if negb (dupfree (multi_vars es)) then Err KeyError else
-        let lv := flat_map (fun e => match snd e with
-                                     | Single v => [([fst e], v)]
-                                     | Multi vs => map (fun v => (fst e :: firstn (List.length v - 2) v ++ [last2 v], v)) vs
-                                     end) es in
-        match lv with [] => Err ValueError | _ => with_src lv end)
-  | ListForm | ListFormOld =>
-      bind (positions_list t L (match f with ListFormOld => true | _ => false end) reqs []) (fun vs =>
-        match vs with [] => Err ValueError | _ => with_src (map (fun v => ([join "/" v], v)) vs) end)
+Fixpoint map_res {A B} (f : A -> res B) (l : list A) : res (list B) :=
+  match l with
+  | [] => Ok []
+  | a :: l' => bind (f a) (fun b => bind (map_res f l') (fun bs => Ok (b :: bs)))
   end.
 
-(* Spec: one column per variable denoted by each request, in request order, labelled with the user's key
-   (dict form: the key alone when the request denotes one variable, else key, node levels, "op/var";
-    list form: the variable's own path, a variable requested twice appears once). *)
-Definition spec_columns (t : tree) (f : form) (reqs : list request) : list (label * path) :=
+(* one requested variable: its label, its frontend key, and whether run() may split it into one column per unit
+   (`hasattr(out_info, '__len__') and len(out_info) > 1`: only an entry of its own — a single-variable key of the
+   dict form, every entry of the list form; inside a wildcard key's dict the array is np.squeeze'd instead) *)
+Definition colreq := (label * path * bool)%type.
+
+Definition expand_cols (lab : label) (vec : string) (idxs : list nat) : list (label * (string * nat)) :=
+  match idxs with
+  | [i] => [(lab, (vec, i))]
+  | _ => map (fun j => (lab ++ [nat_str j], (vec, nth j idxs 0))) (seq 0 (List.length idxs))
+  end.
+
+(* DataFrame construction: a population inside a wildcard key leaves a 2-D array among 1-D ones: np.asarray raises
+   ValueError *)
+Definition build_cols (lv : list colreq) (srcs : list (string * list nat)) : res (list (label * (string * nat))) :=
+  seq_concat (map (fun x : colreq * (string * list nat) =>
+                     let '((lab, v, ex), (vec, idxs)) := x in
+                     if ex then Ok (expand_cols lab vec idxs)
+                     else match idxs with [i] => Ok [(lab, (vec, i))] | _ => Err ValueError end)
+                  (combine lv srcs)).
+
+Definition dict_colreqs (es : list (string * entry)) : list colreq :=
+  flat_map (fun e => match snd e with
+                     | Single v => [([fst e], v, true)]
+                     | Multi vs => map (fun v => (fst e :: firstn (List.length v - 2) v ++ [last2 v], v, false)) vs
+                     end) es.
+
+(* the DataFrame columns: (label, source in the backend state) in column order.
+   Order of the failures as in run(): resolving the paths and the indices (get_variable_positions), then
+   outputs.pop (several wildcard keys that expand to a common variable: the second pop raises KeyError), then the
+   DataFrame (no column at all: ValueError).  Since fix D43 a plain key inside a MultiIndex frame keeps its label. *)
+Definition finish (L : layout) (overlap : bool) (lv : list colreq) : res (list (label * (string * nat))) :=
+  bind (map_res (fun x : colreq => source_of L (snd (fst x))) lv) (fun srcs =>
+    if overlap then Err KeyError else
+    match lv with [] => Err ValueError | _ => build_cols lv srcs end).
+
+Definition run_columns_gen (F : fixes) (t : tree) (L : layout) (f : form) (reqs : list request) : res (list (label * (string * nat))) :=
+  match f with
+  | DictForm =>
+      bind (positions_dict_gen F t reqs) (fun es =>
+        finish L (negb (fix_overlap F) && negb (dupfree (multi_vars es))) (dict_colreqs es))
+  | ListForm | ListFormOld =>
+      bind (positions_list_gen F t L (match f with ListFormOld => true | _ => false end) reqs []) (fun vs =>
+        finish L false (map (fun v => ([join "/" v], v, true)) vs))
+  end.
+Definition run_columns := run_columns_gen nofix.
+
+(* Spec: one column per unit of every variable denoted by each request, in request order, in unit order.
+   U gives the number of units of the population nodes (a node that is not listed is a scalar node).
+   dict form: the key alone when the request denotes one variable, else key, node levels, "op/var";
+   list form: the variable's own path, a variable requested twice appears once;
+   a population adds the unit number as a further level. *)
+Definition node_of (v : path) : path := firstn (List.length v - 2) v.
+Definition units (U : list (path * nat)) (v : path) : nat := match passoc (node_of v) U with Some n => n | None => 1 end.
+Definition unit_cols (lab : label) (v : path) (n : nat) : list (label * (path * nat)) :=
+  if Nat.eqb n 1 then [(lab, (v, 0))] else map (fun j => (lab ++ [nat_str j], (v, j))) (seq 0 n).
+
+Definition spec_columns (t : tree) (U : list (path * nat)) (f : form) (reqs : list request) : list (label * (path * nat)) :=
   match f with
   | DictForm =>
       flat_map (fun r => let '(key, (pat, (o, x))) := r in
                   match path_denotation t (Some (o, x)) pat with
                   | [] => []
-                  | [n] => [([key], var_key n o x)]
-                  | ns => map (fun n => (key :: n ++ [opvar o x], var_key n o x)) ns
+                  | [n] => unit_cols [key] (var_key n o x) (units U (var_key n o x))
+                  | ns => flat_map (fun n => unit_cols (key :: n ++ [opvar o x]) (var_key n o x) (units U (var_key n o x))) ns
                   end) reqs
   | _ =>
-      map (fun v => ([join "/" v], v))
+      flat_map (fun v => unit_cols [join "/" v] v (units U v))
           (fold_left (fun acc r => let '(_, (pat, (o, x))) := r in
                         add_new acc (map (fun n => var_key n o x) (path_denotation t (Some (o, x)) pat))) reqs [])
   end.
@@ -343,23 +405,33 @@ Definition spec_columns (t : tree) (f : form) (reqs : list request) : list (labe
 Definition all_found (t : tree) (reqs : list request) : bool :=
   forallb (fun r => let '(_, (pat, (o, x))) := r in
              match path_denotation t (Some (o, x)) pat with [] => false | _ => true end) reqs.
-Definition spec_result (t : tree) (f : form) (reqs : list request) : res (list (label * path)) :=
+Definition spec_result (t : tree) (U : list (path * nat)) (f : form) (reqs : list request) : res (list (label * (path * nat))) :=
   if negb (all_found t reqs) then Err PyRatesException
-  else match spec_columns t f reqs with [] => Err ValueError | l => Ok l end.
+  else match spec_columns t U f reqs with [] => Err ValueError | l => Ok l end.
 
 (* guards of the output stage *)
-Definition no_overlap (t : tree) (reqs : list request) : bool :=
-  dupfree (flat_map (fun r => let '(_, (pat, (o, x))) := r in
-                       match path_denotation t (Some (o, x)) pat with
-                       | (_ :: _ :: _) as ns => map (fun n => var_key n o x) ns
-                       | _ => []
-                       end) reqs).
-Definition some_column (t : tree) (reqs : list request) : bool :=
-  existsb (fun r => let '(_, (pat, (o, x))) := r in
-             match path_denotation t (Some (o, x)) pat with [] => false | _ => true end) reqs.
-Definition reqs_resolvable (t : tree) (reqs : list request) : bool :=
-  forallb (fun r => resolvable t (fst (snd r))) reqs.
+Definition wild_vars (t : tree) (reqs : list request) : list path :=
+  flat_map (fun r => let '(_, (pat, (o, x))) := r in
+              match path_denotation t (Some (o, x)) pat with
+              | (_ :: _ :: _) as ns => map (fun n => var_key n o x) ns
+              | _ => []
+              end) reqs.
+Definition no_overlap (t : tree) (reqs : list request) : bool := dupfree (wild_vars t reqs).
+(* no population among the >= 2 variables of a dict-form wildcard key *)
+Definition no_pop_in_wildcard (t : tree) (U : list (path * nat)) (reqs : list request) : bool :=
+  forallb (fun v => Nat.eqb (units U v) 1) (wild_vars t reqs).
+Definition reqs_resolvable_gen (F : fixes) (t : tree) (reqs : list request) : bool :=
+  forallb (fun r => resolvable_gen F t (fst (snd r))) reqs.
+Definition reqs_resolvable := reqs_resolvable_gen nofix.
 (* the layout knows the requested variables as state variables (a constant such as op/k is in no state vector:
-   KeyError in ComputeGraph.run) *)
-Definition covers (L : layout) (vs : list path) : bool :=
-  forallb (fun v => match source_of L v with Ok _ => true | Err _ => false end) vs.
+   KeyError in ComputeGraph.run) with as many unit indices as the node has units *)
+Definition covers (L : layout) (U : list (path * nat)) (vs : list path) : bool :=
+  forallb (fun v => match source_of L v with Ok (_, idxs) => Nat.eqb (List.length idxs) (units U v) | Err _ => false end) vs.
+(* the requested variables, once each request *)
+Definition requested (t : tree) (f : form) (reqs : list request) : list path :=
+  match f with
+  | DictForm => flat_map (fun r => let '(_, (pat, (o, x))) := r in
+                            map (fun n => var_key n o x) (path_denotation t (Some (o, x)) pat)) reqs
+  | _ => fold_left (fun acc r => let '(_, (pat, (o, x))) := r in
+                      add_new acc (map (fun n => var_key n o x) (path_denotation t (Some (o, x)) pat))) reqs []
+  end.
